@@ -311,7 +311,10 @@ class Machine:
             args = [self.ev(a, env) for a in s["args"]]
             env[s["bind"]] = self.call_helper(h, args)
             self.labels.add("helper_call")
-            self.fresh = False
+            if self.fresh:
+                # whether a helper call emits anything (and so counts as the first action) depends on what
+                # the tracer can fold: the property does not determine it
+                self.fresh = "ambiguous"
         elif k == "bind":
             env[s["bind"]] = self.ev(s["e"], env)
             if s["e"][0] not in ("in", "sig", "var", "const", "bconst", "loc"):
@@ -334,6 +337,8 @@ class Machine:
             self.objs.setdefault(s["name"], {"name": s["name"], "kind": s["kind"], "w": s.get("w", self.W), "group": "vars"})
             self.fresh = False
         elif k == "await":
+            if self.fresh == "ambiguous":
+                raise Unspecified("first action of the process is not determined (foldable helper call before an await)")
             c = s["c"]
             if c == "true":
                 # a condition that always holds: one clock, or none when it is the first action
@@ -359,6 +364,8 @@ class Machine:
                     yield
                 self.fresh = False
         elif k == "while":
+            if self.fresh == "ambiguous":
+                raise Unspecified("first action of the process is not determined (foldable helper call before a loop)")
             c = s["c"]
             if not self.fresh:
                 self.pause(("while", id(s)))
@@ -404,6 +411,8 @@ class Machine:
                     senv[p] = self.ev(a, env)
             if any(a[0] not in ("in", "sig", "var", "const", "loc") for a in s["args"]):
                 self.fresh = False
+            if self.fresh == "ambiguous":
+                raise Unspecified("first action of the process is not determined (foldable helper call before a sub-coroutine)")
             self.labels.add("sub_coroutine")
             r = yield from self.exec_block(sub["body"], senv)
             if r is not None and r[0] == "return":
